@@ -57,6 +57,21 @@ def project_cases(ctx, n):
     return cases
 
 
+def mode_cases(ctx, n):
+    """two-level nests whose outer loop uses every traversal mode of C07 (the inner rows must name the coordinate being visited)"""
+    from .c05 import rand_tree
+    rng = ctx.rng
+    cases = []
+    for _ in range(n):
+        nc = rng.choice([3, 4])
+        a = rand_tree(rng, nc, 2, pz=rng.choice([0, 0.2]), pabs=rng.choice([0.2, 0.4]))
+        lo = rng.randint(0, nc)
+        a0 = rng.randint(0, nc - 1)
+        cases.append({"a": a, "shape": nc, "omode": rng.choice(["occ", "default", "range", "active", "shape", "rangeshape", "activeshape", "shaperef", "fmtU"]),
+                      "lo": lo, "hi": rng.randint(lo, nc + 1), "step": rng.randint(1, 2), "hasact": rng.choice([0, 1]), "act": [a0, rng.randint(a0, nc)]})
+    return cases
+
+
 def project_where(c):
     w = []
     if c["a"] < 0:
@@ -93,7 +108,12 @@ def run(ctx):
                               op_of=lambda c, lg, st: "project:" + c["mode"], where_of=lambda c, lg, st: project_where(c), name="proj")
     part2["evaluations"] = 3 * len(pcases)
     res["scope"]["project_cases"] = len(pcases)
-    return family.merge(family.merge(res, part), part2)
+    mcases = mode_cases(ctx, 300 if ctx.quick else 6000)
+    part3 = family.run_family(ctx, "C16", mcases, "harness.exec_moderows", "ModeRowsTrace.tla", "ModeRowsTrace.cfg",
+                              op_of=lambda c, lg, st: "mode:" + c["omode"], where_of=lambda c, lg, st: "explicit-zeros" if has_zero({"A": c["a"]}) else "canonical", name="modes")
+    part3["evaluations"] = 3 * len(mcases)
+    res["scope"]["mode_cases"] = len(mcases)
+    return family.merge(family.merge(family.merge(res, part), part2), part3)
 
 
 def has_zero(ops):
@@ -106,6 +126,8 @@ def has_zero(ops):
 
 
 def replay(ctx, rec):
+    if "omode" in rec["behaviour"]:
+        return family.replay_family(ctx, "C16", rec, "harness.exec_moderows", "ModeRowsTrace.tla", "ModeRowsTrace.cfg")
     if "sessions" not in rec["behaviour"]:
         return family.replay_family(ctx, "C16", rec, "harness.exec_projtrace", "ProjRowsTrace.tla", "ProjRowsTrace.cfg")
     return family.replay_family(ctx, "C16", rec, "harness.exec_metrics", "RowsTrace.tla", "RowsTrace.cfg")
